@@ -6,7 +6,8 @@ open Lean Nix.Version Nix.Gen.Format
 Line protocol of the C11 model driver (one JSON array per line, one JSON value back):
 
 * `["is_uuid", s|null]`, `["can_write", ver|null]`, `["can_read", ver|null]`, `["map_mode", m]`,
-  `["tuple_ge", a, b]`, `["check", mode, header]` — the pure functions;
+  `["tuple_ge", a, b]`, `["check", mode, header]` — the pure functions; `["create_header", header, freshId]` —
+  `File._create_header()` on a file whose root carries the given attributes;
 * `["hist", disk|null, [event…]]` — a history on one path:
   events `["open", mode, freshId]`, `["get", key]`, `["keys", prefix]`, `["header"]`,
   `["put", key, val]`, `["del", key]`, `["api", name]` (a mutator whose effect is not modelled:
@@ -171,6 +172,10 @@ def handle (j : Json) : Json :=
   | [Json.str "check", Json.str m, h] =>
     match j2header? h with
     | some h => (match checkHeader m.toList h with | .ok () => ok Json.null | .error e => err e)
+    | none => bad "C11: header"
+  | [Json.str "create_header", h, Json.str fid] =>
+    match j2header? h with
+    | some h => (match createHeader h fid.toList with | .ok h' => ok (header2j h') | .error e => err e)
     | none => bad "C11: header"
   | [Json.str "hist", d, Json.arr evs] =>
     match j2disk? d with
